@@ -206,6 +206,7 @@ type sess struct {
 	senderDone chan struct{}
 	attachDone chan struct{}
 	lastSeq    map[string]int
+	undone     map[string]wamp.ID // "t:"+topic / "p:"+proc -> request id of the latest unsubscribe / unregister
 }
 
 type readerCmd struct {
@@ -256,8 +257,12 @@ type runner struct {
 	left       []string
 	bubble     string
 	endAt      time.Duration
-	orcLog     []string
-	partial    func(*Result)
+	sems       map[string]chan struct{}
+	// handshakes of one realm may overlap (set for safe C06 bursts only)
+	concurrentJoins bool
+	lastStalled     time.Duration // last instant at which some session was stalled
+	orcLog          []string
+	partial         func(*Result)
 }
 
 func (r *runner) now() time.Duration { return time.Since(r.t0) }
@@ -297,7 +302,7 @@ func runHistory(t *testing.T, h *History, trace bool, partial func(*Result)) *Re
 		subs: map[string]map[string]map[int]wamp.ID{}, regs: map[string]map[string]*sess{},
 		regIDs: map[int]map[string]wamp.ID{}, realms: map[string]bool{}, why: map[string]bool{},
 		fullPrev: map[int]bool{}, fullEver: map[int]bool{}, lastCount: map[int]int{},
-		opsByKind: map[string]int{}, unstable: map[int]bool{}, closeStart: -1, closeRet: -1,
+		opsByKind: map[string]int{}, unstable: map[int]bool{}, closeStart: -1, closeRet: -1, lastStalled: -1,
 		hold: newHolds(), lg: log.New(io.Discard, "", 0)}
 	ownLeak := false
 	func() {
@@ -418,7 +423,7 @@ func (r *runner) newSession(spec SessionSpec, transient bool, gate chan struct{}
 	s := &sess{r: r, idx: len(r.sess), spec: spec, transient: transient, nextReq: 1, exps: map[wamp.ID]*expect{},
 		outSig: make(chan struct{}, 1), ctl: make(chan readerCmd), stop: make(chan struct{}),
 		readerDone: make(chan struct{}), senderDone: make(chan struct{}), attachDone: make(chan struct{}),
-		lastSeq: map[string]int{}, closedAt: -1, excUntil: -1}
+		lastSeq: map[string]int{}, undone: map[string]wamp.ID{}, closedAt: -1, excUntil: -1}
 	if spec.Raw {
 		c, p, err := newRawPair(r.lg, spec.Q)
 		if err != nil {
@@ -443,11 +448,22 @@ func (r *runner) newSession(spec SessionSpec, transient bool, gate chan struct{}
 		s.expGone = "hello_goodbye"
 		s.push(&outItem{msg: &wamp.Goodbye{Reason: wamp.CloseRealm, Details: wamp.Dict{}}, desc: "GOODBYE", gate: gate})
 	}
+	sem := r.joinSem(spec.Realm)
 	go func() {
 		defer close(s.attachDone)
 		defer r.recoverAPI("panic", "Attach")
 		if gate != nil {
 			<-gate
+		}
+		if sem != nil {
+			// one handshake at a time per realm, see joinSem
+			tm := time.NewTimer(3 * time.Hour)
+			select {
+			case sem <- struct{}{}:
+				defer func() { <-sem }()
+			case <-tm.C:
+			}
+			tm.Stop()
 		}
 		err := r.rtr.Attach(s.rp)
 		r.mu.Lock()
@@ -455,6 +471,27 @@ func (r *runner) newSession(spec SessionSpec, transient bool, gate chan struct{}
 		r.mu.Unlock()
 	}()
 	return s
+}
+
+// joinSem returns the token channel that serializes the handshakes of a
+// realm, or nil when they may run concurrently.  handleSession holds the
+// realm's close lock across onJoin, which blocks for as long as the meta
+// session handler is busy (1 ms .. 65 s in a RESULT retry); a second
+// handshake (or realm.close) would then wait on that mutex, which is not a
+// durable block: the bubble's clock, and with it the retry, would stop for
+// good.  Concurrent handshakes are therefore only released when no retry can
+// be in progress (C06 "safe" bursts).
+func (r *runner) joinSem(realm string) chan struct{} {
+	if r.concurrentJoins {
+		return nil
+	}
+	if r.sems == nil {
+		r.sems = map[string]chan struct{}{}
+	}
+	if r.sems[realm] == nil {
+		r.sems[realm] = make(chan struct{}, 1)
+	}
+	return r.sems[realm]
 }
 
 // recoverAPI turns a panic inside a router API call made by the harness
@@ -517,9 +554,6 @@ func (s *sess) sendLoop() {
 		}
 		r.mu.Lock()
 		it.begun = true
-		if it.gate != nil {
-			it.enq = r.now()
-		}
 		dropped := s.dropped
 		r.mu.Unlock()
 		if dropped {
@@ -640,7 +674,7 @@ func (s *sess) handle(m wamp.Message) {
 		s.gone = "GOODBYE " + string(m.Reason)
 		rec.Info = string(m.Reason)
 	case *wamp.Subscribed:
-		if e := satisfy(m.Request); e != nil && e.topic != "" && !s.leaving {
+		if e := satisfy(m.Request); e != nil && e.topic != "" && !s.leaving && m.Request > s.undone["t:"+e.topic] {
 			r.subMap(s.spec.Realm, e.topic)[s.idx] = m.Subscription
 		}
 	case *wamp.Unsubscribed:
@@ -648,7 +682,7 @@ func (s *sess) handle(m wamp.Message) {
 	case *wamp.Published:
 		satisfy(m.Request)
 	case *wamp.Registered:
-		if e := satisfy(m.Request); e != nil && e.proc != "" && !s.leaving {
+		if e := satisfy(m.Request); e != nil && e.proc != "" && !s.leaving && m.Request > s.undone["p:"+e.proc] {
 			r.regMap(s.spec.Realm)[e.proc] = s
 			if r.regIDs[s.idx] == nil {
 				r.regIDs[s.idx] = map[string]wamp.ID{}
